@@ -42,7 +42,15 @@ def handle (args impl : List String) : String :=
         | none => none
       | _ => none)
     let m := match newest slots with | some c => toString c.nb | none => "none"
-    reply m (if impl.isEmpty then "-" else "ok") items
+    -- the specification on the implementation's answer alone: a loadable bundle of maximal NotBefore
+    let loadable := slots.filterMap (fun s => match load s with | .ok _ c => some c.nb | _ => none)
+    let best := loadable.foldl max 0
+    let spec := match impl with
+      | [o] =>
+        if loadable.isEmpty then (if o = "none" then "ok" else "bad:loaded-from-nothing")
+        else if o = toString best then "ok" else "bad:not-newest-issuer"
+      | _ => "-"
+    reply m spec items
   | _ => bad
 
 end CM.Drv.C06
